@@ -149,6 +149,17 @@ func RunTrace(prop, root string, ops []string) int {
 				}
 			}
 		}
+		if os.Getenv("VERIF_DUMP_C13") != "" && br.OK() {
+			ctx := w.RCtx()
+			for d, tot := range pendingRewards(w, ctx) {
+				fmt.Printf("   pending %s = %s ; masterchef balance %s\n", d, tot, w.App.BankKeeper.GetBalance(ctx, modAddr("masterchef"), d).Amount)
+			}
+			for _, pri := range w.App.MasterchefKeeper.GetAllPoolRewardInfos(ctx) {
+				fmt.Printf("   pool %d %s acc=%s\n", pri.PoolId, pri.RewardDenom, pri.PoolAccRewardPerShare)
+			}
+			sp := w.App.StablestakeKeeper.GetParams(ctx)
+			fmt.Printf("   vault TV=%s rate=%s\n", sp.TotalValue, w.App.StablestakeKeeper.GetRedemptionRate(ctx))
+		}
 		if who := os.Getenv("VERIF_DUMP_COMMIT"); who != "" && br.OK() {
 			cm := w.App.CommitmentKeeper.GetCommitments(w.RCtx(), w.A(who).Addr)
 			fmt.Printf("   %s committed=%v claimed=%v vesting=%v\n   total=%v\n", who, cm.CommittedTokens, cm.Claimed, cm.VestingTokens, w.App.CommitmentKeeper.GetParams(w.RCtx()).TotalCommitted)
